@@ -57,13 +57,13 @@ def main():
         "setup_cmd": "./setup.sh",
         "hooks": {"guard": "SCORE_ANALYSIS_VERIF", "enable": "no hooks are needed: the harness drives /repo through PYTHONPATH=/repo and records RNG draws by wrapping numpy in its own process",
                   "baseline_off_cmd": "cd /repo && /venv/bin/python -m pytest -ra -q -p no:cacheprovider --timeout=900 --continue-on-collection-errors",
-                  "source_commits": ["9ba2891 (fix:)", "33d4440 (fix:)"], "add_only": True},
+                  "source_commits": [], "add_only": True},
         "engines": [{"name": "coq-model", "path": "/verif/coq", "serves_properties": sorted(CLAIMED),
                      "kind_free_text": "hand-written Gallina model of score_analysis with theorems per property (coq/theories/Props), "
                                        "tied to /repo by an ast translator + tie lemmas (coq/ties) and by vm_compute correspondence runs (harness/)"}],
         "checks": checks,
         "not_applicable": na,
-        "notes": "See DESIGN.md. ./check Cxx [--tier quick|thorough] [--replay FILE]; known findings in known_findings.json.",
+        "notes": "See DESIGN.md. Repairs of genuine defects committed in /repo as fix: commits (not hooks): 9ba2891, 33d4440 (C03). ./check Cxx [--tier quick|thorough] [--replay FILE]; known findings in known_findings.json.",
     }
     with open(os.path.join(VERIF, "MANIFEST.json"), "w") as fh:
         json.dump(manifest, fh, indent=1)
